@@ -1326,7 +1326,10 @@ static void DecodeBR(Word Code) {
                 &ArgStr[1], Offset, UInt14, &EvalResult);
         if (EvalResult.OK) {
             Dist = AdrInt - EProgCounter();
-            if ((BrRel) || ((Dist <= 16) && (Dist >= -15) && (Dist != 0))) {
+            /* $addr reaches (PC)-15..(PC)-1 and (PC)+2..(PC)+16: there is no code for (PC) and (PC)+1 */
+            if (BrRel && ((Dist == 0) || (Dist == 1)) && !mFirstPassUnknownOrQuestionable(EvalResult.Flags)) {
+                WrError(ErrNum_NotFromThisAddress);
+            } else if ((BrRel) || ((Dist <= 16) && (Dist >= -15) && (Dist != 0))) {
                 if (Dist > 0) {
                     Dist--;
                     if ((Dist > 15) && !mSymbolQuestionable(EvalResult.Flags)) {
